@@ -209,11 +209,7 @@ def frontParseOp (j : Json) : R Json := do
   let argv ← strList (← fld j "argv")
   match frontParse conv.parseDuration E argv with
   | .usage => pure (obj [("result", jstr "usage")])
-  | .misuse (.flag e) => pure (obj [("result", jstr ("flag:" ++ perrJ e))])
-  | .misuse .severalCommands => pure (obj [("result", jstr "severalCommands")])
-  | .misuse .goosWithoutCompile => pure (obj [("result", jstr "goosWithoutCompile")])
-  | .misuse .helpSeveralTargets => pure (obj [("result", jstr "helpSeveralTargets")])
-  | .misuse .strayArgs => pure (obj [("result", jstr "strayArgs")])
+  | .misuse _ => pure (obj [("result", jstr "misuse")])
   | .ok inv cmd =>
     pure (obj [("result", jstr "ok"), ("cmd", jstr (cmdJ cmd)), ("debug", jbool inv.debug), ("dir", jstr inv.dir), ("workDir", jstr inv.workDir),
                ("force", jbool inv.force), ("verbose", jbool inv.verbose), ("list", jbool inv.list), ("help", jbool inv.help),
